@@ -18,8 +18,8 @@ def vjob(name, td, te, fam, timeout, unwind=10, mem=10, shape=None):
     if shape is not None:
         nslots = (1 << (td + 1)) - 1
         j.defines += ["TL_SHAPE=%d" % shape, "TL_NRECS=" + ",".join([str(te)] * nslots)]
-        j.desc = ("pfx_table_validate(_r) on an IPv%d trie of FIXED shape (slot mask %d of the depth-%d template: a chain of three nodes, "
-                  "%d record(s) each; every prefix, length, AS, max length symbolic, Inv assumed) -- the walk has to step over a node "
+        j.desc = ("pfx_table_validate(_r) on an IPv%d trie of FIXED shape (slot mask %d of the depth-%d template, "
+                  "%d record(s) per node; every prefix, length, AS, max length symbolic, Inv assumed) -- the walk has to step over a node "
                   "between two covering nodes; query AS/prefix/length/reasons symbolic; RFC 6811 oracle by full traversal"
                   % (fam, shape, td, te))
         j.bounds = dict(j.bounds, shape_mask=shape)
@@ -46,5 +46,8 @@ def jobs(tier):
     J.append(vjob("validate_v6_chainLR", 2, 1, 6, 1500, unwind=17, shape=19))
     J.append(vjob("validate_v6_chainRL", 2, 1, 6, 1500, unwind=17, shape=37))
     if tier == "thorough":
-        J += [vjob("validate_v4_d2", 2, 2, 4, 3000, unwind=17, mem=24), vjob("validate_v6_d2", 2, 1, 6, 3000, unwind=17, mem=24)]
+        # (the symbolic-shape depth-2 template runs out of 24 GB: measured; fixed depth-2 shapes with symbolic data instead)
+        for nm, mask, te in (("full", 127, 1), ("leafL_innerR", 39, 1), ("innerL_leafR", 15, 1), ("chainLR_e2", 19, 2), ("chainRL_e2", 37, 2)):
+            J.append(vjob("validate_v4_d2_%s" % nm, 2, te, 4, 3000, unwind=17, mem=24, shape=mask))
+        J.append(vjob("validate_v6_d2_full", 2, 1, 6, 3000, unwind=17, mem=24, shape=127))
     return J
